@@ -129,7 +129,8 @@ def _check_entries(items, want):
 def c19_ly_bar(ki: int, count: int, si: int, o: int) -> bool:
     key = pick(KEYS, ki)
     shape = pick(BAR_SHAPES, si)
-    o = enum(o, 1, 6)
+    o = enum(o, P["olo"], P["ohi"] + 1)
+    count = enum(count, P["clo"], P["chi"] + 1)
     b, want = _mk_bar(shape, key, (count, 4), o)
     out = lilypond.from_Bar(b)
     items = lily.parse_music(deep_real(out))
@@ -336,7 +337,12 @@ def claims(tier):
     for lo in range(0, len(V), step):
         cl.append(Claim("ly_container[v%d-%d]" % (lo, min(len(V), lo + step) - 1), c19_ly_container, params={"lo": lo, "hi": min(len(V), lo + step)}, group="c19_ly_container", pre=[lambda n, vi, o: 0 <= n <= 5 and P["lo"] <= vi < P["hi"] and 0 <= o <= 3], timeout=1200 if q else 3000, bounds="from_NoteContainer: 0..5 notes x values %d..%d of the %d-value vocabulary (longa/breve, 1-4 dots, 3/5/7-tuplets); first octave 0..3" % (lo, min(len(V), lo + step) - 1, len(V))))
     for si in range(len(BAR_SHAPES)):
-        cl.append(Claim("ly_bar[shape%d]" % si, c19_ly_bar, params={"si": si}, group="c19_ly_bar", pre=[lambda ki, count, si, o: 0 <= ki < 30 and 6 <= count <= (12 if P["si"] != 3 else 40) and si == P["si"] and 1 <= o <= 5], timeout=1200 if q else 3000, bounds="from_Bar shape %d (%r): 30 keys, meter count symbolic, octave 1..5; with and without key/time" % (si, BAR_SHAPES[si])))
+        clo, chi = (8, 9) if q else (6, 12)
+        if si == 3:
+            clo, chi = (8, 9) if q else (8, 40)
+        olo, ohi = (2, 3) if q else (1, 5)
+        for klo in range(0, 30, 10):
+            cl.append(Claim("ly_bar[shape%d,keys%d-%d]" % (si, klo, klo + 9), c19_ly_bar, params={"si": si, "clo": clo, "chi": chi, "olo": olo, "ohi": ohi, "klo": klo}, group="c19_ly_bar", pre=[lambda ki, count, si, o: P["klo"] <= ki < P["klo"] + 10 and si == P["si"]], timeout=1200 if q else 3000, bounds="from_Bar shape %d (%r): keys %d..%d, meter count %d..%d, octave %d..%d (all enumerated: the text renders them); with and without key/time" % (si, BAR_SHAPES[si], klo, klo + 9, clo, chi, olo, ohi)))
     cl.append(Claim("ly_track", c19_ly_track, pre=[lambda k1, k2, m1, m2, o: 0 <= k1 < 4 and 0 <= k2 < 4 and 0 <= m1 < 3 and 0 <= m2 < 3 and 2 <= o <= 4], timeout=1200 if q else 3000, bounds="from_Track / from_Composition: 4 bars over 4x4 key pairs x 3x3 meter pairs: key/time shown exactly on change; header fields"))
     for si in range(len(BAR_SHAPES)):
         cl.append(Claim("xml_dom[shape%d]" % si, c19_xml_dom, params={"si": si}, group="c19_xml_dom", pre=[lambda ki, si, o, ntr: 0 <= ki < (30 if not q else 8) and si == P["si"] and 0 <= o <= 7 and 1 <= ntr <= 3], timeout=1200 if q else 3000, bounds="MusicXML DOM: 1..3 parts x 2 measures, first measure shape %d; %s keys; octave symbolic 0..7; ids, numbers, attributes, notes, chord marks, dots, duration/divisions" % (si, "8" if q else "30")))
